@@ -25,10 +25,13 @@ def run(ch, tier):
     res = Result()
     cfg = swarm(ch.s('cfg'), Cfg(pair_bias=3), tier)
     cfg.echo = ch.s('cfg').flag(1, 2)     # the text of some guards is also the entry/exit code of a state
+    if ch.s('cfg').flag(1, 3):
+        # the statechart also sends itself (delayed) events: "the next pending event" then comes from the queue model
+        cfg.sends = cfg.delays = True
     sp = gen_spec(ch.s('chart'), cfg)
     sim = Sim(sp, statechart=materialise(sp, ch, res))
     cfp = fp(sp.fingerprint())
-    for r in standard_ops(sim, ch, tier, single_pending=True, advance=False):
+    for r in standard_ops(sim, ch, tier, single_pending=not cfg.sends, advance=bool(cfg.sends)):
         res.stats['steps'] += 1
         if r.init:
             if r.exc is not None:
